@@ -38,6 +38,14 @@ def reg(pid, steps, technique, text, note, level="exploration", design_ref=None)
                        design_ref=design_ref or f"DESIGN.md section for {pid}")
 
 
+def _load_tables():
+    import glob, os
+    here = os.path.dirname(os.path.abspath(__file__))
+    for path in sorted(glob.glob(os.path.join(here, "tables", "*.py"))):
+        src = open(path).read()
+        exec(compile(src, path, "exec"), {"reg": reg, "native": native, "one": one, "NOT_APPLICABLE": NOT_APPLICABLE, "HOOKS": HOOKS})
+
+
 reg(
     "C46",
     native("mon-misc", "ids"),
@@ -63,3 +71,5 @@ reg(
     "Exhaustive over capacities per text, sampled over texts; success length is len+1 as pinned by the repo's own test.",
     design_ref="DESIGN.md 6 (C47)",
 )
+
+_load_tables()
